@@ -63,6 +63,13 @@ class C29(Check):
                     # written by both: first in the parent, then in the child, then in the parent again (same value as the first time)
                     case["parent"].append([i, n, rand_val(rng, f)])
                     case["child"].append([i, n, rand_val(rng, f)])
+        if rng.random() < 0.5:
+            # variables assigned BEFORE the device joins the group (then plain Python attributes): whatever that leaves behind in the
+            # device object must not reach the layout of the shared storage
+            for i, d in enumerate(devs):
+                for n, f in c29_devs.variables(c29_devs.CLASSES[d]):
+                    if f in ("B", "H", "I", "Q", "b", "h", "i", "q", "l", "L", "N") and rng.random() < 0.4:
+                        case.setdefault("preset", []).append([i, n, rng.choice([1, 2, 3, 8, 9, 16, 17, 24, 40])])
         return case
 
     def gen_cases(self):
@@ -81,6 +88,8 @@ class C29(Check):
         import multiprocessing
         try:
             devs = [c29_devs.CLASSES[d]() for d in case["devs"]]
+            for i, n, v in case.get("preset", []):
+                setattr(devs[i], n, v)
             sg = ProcessSyncGroup(c29_devs.DummyEC(), devs)
         except Exception as e:      # noqa
             return Err(6, f"constructing the ProcessSyncGroup raised {type(e).__name__}: {e}")
@@ -229,7 +238,7 @@ class C29(Check):
         return ("1-3 device instances out of four classes (formats B H I Q b h i q x l L N f d ? the padded multi-member formats Bq and HHI and formats of odd sizes 3B 3H 5s =HB, one class derived from another and redefining a variable with a larger "
                 "format); 40% of the variables written in the parent, 40% in a spawned child process that received the pickled ProcessSyncGroup; the child "
                 "reads everything before and after its writes, the parent reads everything back; 15% of the variables are written on both sides; half of the parent's variables also get a write that struct refuses, which must change nothing; finally "
-                "the parent assigns its first values again and a second spawned child and the parent read everything")
+                "the parent assigns its first values again and a second spawned child and the parent read everything; in half of the cases 40% of the integer variables were assigned small values BEFORE the device joined the group")
 
     def distribution(self, cases, observed):
         return {"cases": len(cases), "devices": sum(len(c["devs"]) for c in cases), "errors": sum(isinstance(o, Err) for o in observed)}
